@@ -2,6 +2,7 @@
 
 use super::amo::*;
 use super::asyncp::*;
+use super::cachesnap::*;
 use super::containers::*;
 use super::more::*;
 use super::solve::*;
@@ -103,6 +104,13 @@ pub fn stages(id: &str) -> Vec<Stage> {
         "C15" => vec![
             st(C15 { stage: "small", max_n: 33, all_pairs_upto: 33, sample_pairs: 0 }, 300, 6_000, Release),
             st(C15 { stage: "large", max_n: 130, all_pairs_upto: 64, sample_pairs: 600 }, 40, 3_000, Release),
+        ],
+        "C16" => vec![
+            st(C16 { params: Params::default(), stage: "main" }, 8_000, 300_000, Release),
+            st(C16 { params: Params::conflict_heavy(), stage: "deep" }, 3_000, 100_000, Release),
+        ],
+        "C20" => vec![
+            st(C20 { params: Params::default().hint_heavy(), stage: "main", max_ops: 40 }, 10_000, 400_000, Release),
         ],
         "C18" => vec![
             st(C18 { stage: "main", max_ops: 250 }, 4_000, 150_000, Release),
